@@ -2189,6 +2189,88 @@ def _auth_gate():
 item(rel, [("auth_result_propagated_directly", "bool", "false")], _auth_gate)
 
 
+# ---------------------------------------------------------------- relay loops (C01 tunnel theorems, Model/Relay.v)
+emit()
+emit("(* the copy loops of a proxied connection: server/handler.rs, client/socks5.rs, client/http_proxy.rs *)")
+RELAY_FNS = [("src/server/handler.rs", "proxy_tcp_connection_data_forwarding"),
+             ("src/client/socks5.rs", "handle_socks5_connection"),
+             ("src/client/http_proxy.rs", "handle_http_proxy_connection")]
+
+
+def _relay():
+    """every loop buffer `let mut b = vec![0u8; K]` of the three relay functions that a sink call is handed a piece of
+    (write_all / write / write_data_frame / send_data): K; and for every such sink call: the piece is `b[..n]` with `n` bound to
+    the result of the read into that same buffer, and a TCP sink is written with write_all"""
+    names = ["relay_buf_sizes", "relay_sinks_take_read_prefix"]
+    sizes, exact = [], True
+    for rel_, fn in RELAY_FNS:
+        f = fn_view(S(rel_), fn, inline=False)
+        if not f:
+            problem(f"{fn} not found", rel_, names)
+            return {}
+        for m in f.finditer(r"\blet\s+mut\s+(\w+)\s*=\s*vec!\s*\[\s*0u8\s*;"):
+            b = m.group(1)
+            scope_end = len(f.code)
+            # the buffer lives until the block it is declared in ends
+            depth = 0
+            for i in range(m.end(), len(f.code)):
+                ch = f.code[i]
+                if ch == "{":
+                    depth += 1
+                elif ch == "}":
+                    depth -= 1
+                    if depth < 0:
+                        scope_end = i
+                        break
+            body = f.code[m.end():scope_end]
+            # the variables bound to the result of a read into b
+            ns = set()
+            for lm in re.finditer(r"\blet\s+(\w+)\s*=", body):
+                init = body[lm.end():lm.end() + 1500]
+                k = init.find(".read(&mut " + b + ")")
+                if k < 0:
+                    continue
+                depth, ok = 0, True
+                for ch in init[:k]:
+                    if ch in "{(":
+                        depth += 1
+                    elif ch in "})":
+                        depth -= 1
+                    elif ch == ";" and depth == 0:
+                        ok = False
+                        break
+                if ok:
+                    ns.add(lm.group(1))
+            sinks = 0
+            for sm in re.finditer(r"\.\s*(write_all|write|write_data_frame|send_data)\s*\(", body):
+                close = match_close(body, sm.end() - 1)
+                args = squash(body[sm.end():close])
+                if not re.search(r"(?<![A-Za-z0-9_])%s(?![A-Za-z0-9_])" % re.escape(b), args):
+                    continue
+                sinks += 1
+                sl = re.search(r"(?<![A-Za-z0-9_])%s\[\.\.(\w+)\]" % re.escape(b), args)
+                if not sl or sl.group(1) not in ns or sm.group(1) == "write":
+                    exact = False
+            if sinks == 0:
+                continue            # not a relay buffer (e.g. a parser's scratch vector)
+            close = match_close(f.code, f.code.find("[", m.start()))
+            expr = f.text[f.code.find(";", m.start()) + 1:close]
+            v = try_ev(ev_int, expr, rel_, local_env(f))
+            if v is None:
+                problem(f"{fn}: relay buffer size `{expr.strip()}` cannot be evaluated", rel_, names)
+                return {}
+            if sinks != 1:
+                exact = False       # one loop, one sink
+            sizes.append(v)
+    if not sizes:
+        problem("no relay loop found (a zeroed buffer that is read into and handed to write_all / write_data_frame / send_data)", RELAY_FNS[0][0], names)
+        return {}
+    return {"relay_buf_sizes": "[" + "; ".join(str(x) for x in sizes) + "]", "relay_sinks_take_read_prefix": _bool(exact)}
+
+
+item(RELAY_FNS[0][0], [("relay_buf_sizes", "list N", "[]"), ("relay_sinks_take_read_prefix", "bool", "false")], _relay,
+     files=[r for r, _ in RELAY_FNS])
+
 # ======================================================================================== write
 for rel_, s_ in list(_SRCS.items()):
     if not s_.ok:
